@@ -20,14 +20,22 @@ COMMON_NOTE = ("Trusted: Coq 8.16.1 kernel and vm_compute; the hand-written Gall
 DIFF = "Coq models and definitional semantics + differential testing against the Go code (testing, not proof, for the open part)"
 
 add("C01", "other",
-    "Partial. Proved in Coq: the definitional semantics coq/Sem.v obeys the documented language rules (PropC01.v). Not "
-    "proved: the simulation between the compiler/VM model and Sem (stated as C01_compile_correct_statement). The property is "
+    "Partial. Proved in Coq: the definitional semantics coq/Sem.v obeys the documented language rules (PropC01.v); and compiler "
+    "correctness on the pure-expression fragment (ExprSem/ExprVM/ExprCorrect/ExprTop.v): for every expression built from "
+    "int/float/bool/string literals, global variables, all binary operators and unary - # ! ~ at any depth, the code the compiler "
+    "model emits in ANY context (operand selector, Discard/ForbidTemp/AcceptTemp/OpDepth/... flags; both temp-register "
+    "strategies, the x-op-x shortcut, unary minus as -1*x) run by the VM model from any state leaves exactly Sem's value where "
+    "the operand says, keeps the stack below, and raises the same error class; through ByteCode/load/Run and run_tree the "
+    "result equals Sem's, the stack pointer, globals and output are as before. Not proved: the simulation for statements with "
+    "effects, locals/closures, arrays, calls, control flow (full statement: C01_compile_correct_statement). The property is "
     "decided each run by differential testing: generated sessions are run on the real code and compared, inside Coq, with Sem "
     "(property oracle) and with the compiler/VM model (correspondence; bytecode-level agreement of the compiler model was "
     "established on thousands of statements).", COMMON_NOTE, DIFF)
 add("C09", "other",
     "Partial. Proved in Coq (PropC09.v): the error path resets the main machine completely; stack growth preserves contents; "
-    "Push/Pop and PushFrame/PopFrame are balanced in the memory model. Not proved: balance of every compiled statement "
+    "Push/Pop and PushFrame/PopFrame are balanced in the memory model; a compiled pure-expression statement (any depth, any "
+    "operators) leaves sp, the cells below, frames, closures and the main context's ip where they must be "
+    "(C09_pure_expression_is_balanced). Not proved: balance of every other compiled statement "
     "(C09_stmt_balanced_statement). Decided each run by reading sp / frame / closure / live-context / ip counters of the real "
     "machine after every statement (both compile modes), loop-scaling programs whose stack length must not depend on the "
     "iteration count, and comparison of all counters with the VM model.", COMMON_NOTE, DIFF)
@@ -74,7 +82,11 @@ add("C08", "other",
 add("C12", "other",
     "Partial. Proved in Coq on the definitional semantics (PropC12.v): increment forms are the same computation, a one-statement "
     "block / true if is its body, negated if swaps the branches, a condition must be boolean in if, if-else and while. The "
-    "compiled side is C01's open statement. Decided each run by metamorphic testing on the real code: every generated expression "
+    "compiled side is proved for pure expressions (C12_pure_expression_any_context, ExprCorrect.v): in every compilation context "
+    "- any operand selector and any combination of the Discard/ForbidTemp/AcceptTemp/OpDepth/InFor/InFunc flags, i.e. result used "
+    "or discarded, operand of a deeper or shallower operator, temp register allowed or not - the emitted code computes the one "
+    "value Sem defines (or its error), for literals, globals, all operators at any depth, including the equal-operands shortcut. "
+    "For statements with effects the compiled side is C01's open statement. Decided each run by metamorphic testing on the real code: every generated expression "
     "is placed in about 45 positions (used/discarded, function tail, loop body, call argument, array element, assignment, return, "
     "yield, generator, typed identity embeddings at several operator depths, condition positions) and value/output/error class "
     "compared pairwise, plus statement-form equivalences (x=x+1 / x=1+x / t=x;x=t+1, e op e vs t op t, if !c A else B vs if c B else A).",
